@@ -162,7 +162,7 @@ def gen_witness(tier, rng):
             out.append(" ; ".join([str(prec), "|".join(decls)] + posts + ["solve", "to 400"]))
     return out
 
-C07_CLASSES = ("floatlineq_mixed",)      # float_intlin_single / float_cmp_intlin / bisect_stall / mixed_strict_int_succ were repaired in /repo
+C07_CLASSES = ()      # float_intlin_single / float_cmp_intlin / bisect_stall / mixed_strict_int_succ / floatlineq_mixed were repaired in /repo
 def judge(line, impl, spec):
     if impl.startswith("err NoSolution"):
         return "solve answered NoSolution on a model built around a robust witness"
